@@ -65,7 +65,8 @@ package header
 //@ function chainAt(h uint64) H -- the header of the canonical chain at height h (A-chain)
 //@ axiom chain-heights: forall a uint64 @ chainAt(a) :: chainAt(a).Height() == a
 //@ axiom chain-hashes-injective: forall a uint64, b uint64 @ chainAt(a), chainAt(b) :: chainAt(a).Hash() == chainAt(b).Hash() ==> a == b
-//@ pure onChain(x) = !x.IsZero() && sameHdr(x, chainAt(x.Height()))
+//@ axiom chain-linked: forall a uint64, b uint64 @ chainAt(a), chainAt(b) :: chainAt(a).LastHeader() == chainAt(b).Hash() ==> b + 1 == a
+//@ pure onChain(x) = !x.IsZero() && sameHdr(x, chainAt(x.Height())) && 1 <= x.Height() && x.Height() < 9223372036854775808 -- A-chain: chain heights lie in [1, 2^63)
 
 //@ iface Store.Height(s)
 //@   modifies ghost:storeLow
